@@ -137,6 +137,8 @@ def show_atom(a):
         return "%s(%s,%s)" % (k, show(a[1]), show(a[2]))
     if k in ("trunc", "zext", "sext"):
         return "%s%d(%s)" % (k, a[2], show(a[1]))
+    if k == "purecall":
+        return "%s(%s)" % (a[1], ", ".join(show(x) if isinstance(x, Lin) else str(x) for x in a[2:]))
     if k == "global":
         return "@" + a[1]
     if k == "seg":
